@@ -768,6 +768,47 @@ class CookTask(FragmentTask):
                    call.get("recipe") is inp["recipe"] and call.get("ids_keep") is inp["keep"] and call.get("field_indexes") is inp["fields"], "P")
 
 
+class CookTaskList(FragmentTask):
+    """The statements of Chef.cook that build the task list of ONE level (from the empty list to the end of the loop over the
+    level's binary files; real code, skeleton: 3 boxes over 2 interleaved files): one task per distinct binary file, each
+    naming ITS file and ITS output path - tasks are separate objects, a later file does not rewrite an earlier task."""
+    prop = "C11"
+    reach = "S"
+    qual = CF + "Chef.cook"
+    first = staticmethod(FragmentTask.assigns("mp_calls"))
+
+    @staticmethod
+    def last(s):
+        import ast
+        return isinstance(s, ast.For) and "np.unique(level_files)" in ast.unparse(s.iter)
+
+    def __init__(self):
+        self.name = "cook.task-list-of-a-level"
+
+    def setup(self, ex):
+        inp = CookTask.setup(self, ex)
+        inp["frame"].pop("bfpath", None)
+        inp["frame"].pop("mp_calls", None)
+        return inp
+
+    which = None
+
+    def post(self, ex, inp, out):
+        ctx = ex.ctx
+        ctx.oblige("raises-nothing", out.kind == "ret", "P", note=str(out.exc) if out.kind != "ret" else "")
+        if out.kind != "ret":
+            return
+        calls = out.value.get("mp_calls")
+        files = sorted(set(CFILES))
+        ok = isinstance(calls, list) and len(calls) == len(files) and all(isinstance(c, dict) for c in calls)
+        ctx.structure("post.one-task-per-binary-file-of-the-level", ok, note=f"{len(calls) if isinstance(calls, list) else calls}")
+        from pyvc.ops import compare
+        for k, f in enumerate(files):
+            ctx.oblige(f"post.task-{k}-reads-its-own-file", compare(ex, "Eq", calls[k].get("bfpath"), f), "P", note=str(calls[k].get("bfpath")))
+            ctx.oblige(f"post.task-{k}-writes-its-own-file",
+                       compare(ex, "Eq", calls[k].get("newbfpath"), "out/Level_0/" + f.split("/")[-1]), "P", note=str(calls[k].get("newbfpath")))
+
+
 class CookScatter(FragmentTask):
     """The loop of Chef.cook storing what the knives returned: the t-th offset / minima / maxima of the task of file f go to box
     box_index_map[f][t]."""
@@ -827,7 +868,7 @@ class CookScatter(FragmentTask):
 
 
 def cook_tasks(tier):
-    return [CookTask(CFILES[0]), CookTask(CFILES[1]), CookScatter()]
+    return [CookTask(CFILES[0]), CookTask(CFILES[1]), CookTaskList(), CookScatter()]
 
 
 def cook_canaries():
